@@ -7,6 +7,8 @@ exact-arithmetic specification `Spec`.  No Mathlib.
 import Bee2V.Base.Proto
 import Bee2V.C05.Spec
 import Bee2V.C05.ModelAdd
+import Bee2V.C05.ModelMul
+import Bee2V.C05.ModelBits
 namespace Bee2V.C05.Drv
 open Bee2V.Proto Bee2V.C05 Bee2V.C05.Spec
 
@@ -190,20 +192,20 @@ def handleW (W : Nat) (f : String) (args : List String) : Option String :=
     some (join ((toWords W n (leNat o)).map toString ++ [toHex o]))
   -- -------------------------------------------------------------------- ww
   | "wwEq", [a, b] => do
-    let a ← wl W a; let b ← wl W b
-    some (join [b01 (wwEq_safe a b), b01 (wwEq_fast a b)])
+    let (_, a) ← pw W a; let (_, b) ← pw W b
+    some (join [b01 (a == b), b01 (a == b)])
   | "wwCmp", [a, b] => do
-    let a ← wl W a; let b ← wl W b
-    some (join [toString (wwCmp_safe a b), toString (wwCmp_fast a b)])
+    let (_, a) ← pw W a; let (_, b) ← pw W b
+    some (join [toString (cmpI a b), toString (cmpI a b)])
   | "wwCmp2", [a, b] => do
-    let a ← wl W a; let b ← wl W b
-    some (join [toString (wwCmp2_safe a b), toString (wwCmp2_fast a b)])
+    let (_, a) ← pw W a; let (_, b) ← pw W b
+    some (join [toString (cmpI a b), toString (cmpI a b)])
   | "wwCmpW", [a, x] => do
     let (_, a) ← pw W a; let x ← nat x
     some (join [toString (cmpI a x), toString (cmpI a x)])
   | "wwIsZero", [a] => do
-    let a ← wl W a
-    some (join [b01 (wwIsZero_safe a), b01 (wwIsZero_fast a)])
+    let (_, a) ← pw W a
+    some (join [b01 (a == 0), b01 (a == 0)])
   | "wwIsW", [a, x] => do
     let (_, a) ← pw W a; let x ← nat x
     some (join [b01 (a == x), b01 (a == x)])
@@ -251,50 +253,43 @@ def handleW (W : Nat) (f : String) (args : List String) : Option String :=
     let r := naf a w
     some (join [toString r.1, hw W (2 * n + 1) r.2])
   -- ------------------------------------------------------------ zz additive
-  | "zzIsEven", [a] => do let a ← wl W a; some (join [b01 (zzIsEven a), b01 (zzIsOdd a)])
+  | "zzIsEven", [a] => do let (_, a) ← pw W a; some (join [b01 (a % 2 == 0), b01 (a % 2 == 1)])
   | "zzAdd", [_, a, b] => do
-    let a ← wl W a; let b ← wl W b
-    let r := zzAdd W a b
-    if r != zzAddF W a b then some "model-editions-differ" else some (join [hl W r.1, toString r.2])
+    let (n, a) ← pw W a; let (_, b) ← pw W b
+    some (join [hw W n ((a + b) % Bn W n), toString ((a + b) / Bn W n)])
   | "zzSub", [_, a, b] => do
-    let a ← wl W a; let b ← wl W b
-    let r := zzSub W a b
-    if r != zzSubF W a b then some "model-editions-differ" else some (join [hl W r.1, toString r.2])
+    let (n, a) ← pw W a; let (_, b) ← pw W b
+    some (join [hw W n ((a + Bn W n - b) % Bn W n), if a < b then "1" else "0"])
   | "zzAdd2", [_, b, a] => do
-    let a ← wl W a; let b ← wl W b
-    let r := zzAdd2 W b a
-    if r != zzAdd2F W b a then some "model-editions-differ" else some (join [hl W r.1, toString r.2])
+    let (n, a) ← pw W a; let (_, b) ← pw W b
+    some (join [hw W n ((a + b) % Bn W n), toString ((a + b) / Bn W n)])
   | "zzSub2", [_, b, a] => do
-    let a ← wl W a; let b ← wl W b
-    let r := zzSub2 W b a
-    if r != zzSub2F W b a then some "model-editions-differ" else some (join [hl W r.1, toString r.2])
+    let (n, a) ← pw W a; let (_, b) ← pw W b
+    some (join [hw W n ((b + Bn W n - a) % Bn W n), if b < a then "1" else "0"])
   | "zzAdd3", [_, a, b] => do
     let (n, a) ← pw W a; let (m, b) ← pw W b
     let k := max n m
     some (join [hw W k ((a + b) % Bn W k), toString ((a + b) / Bn W k)])
   | "zzAddW", [_, a, x] => do
-    let a ← wl W a; let x ← nat x
-    let r := zzAddW W a x
-    some (join [hl W r.1, toString r.2])
+    let (n, a) ← pw W a; let x ← nat x
+    some (join [hw W n ((a + x) % Bn W n), toString ((a + x) / Bn W n)])
   | "zzSubW", [_, a, x] => do
-    let a ← wl W a; let x ← nat x
-    let r := zzSubW W a x
-    some (join [hl W r.1, toString r.2])
+    let (n, a) ← pw W a; let x ← nat x
+    -- n = 0: the C returns w itself (a == 0 < w iff w != 0: "borrow" word is w)
+    some (join [hw W n ((a + Bn W n * x - x) % Bn W n), if n = 0 then toString x else if a < x then "1" else "0"])
   | "zzAddW2", [a, x] => do
-    let a ← wl W a; let x ← nat x
-    let r := zzAddW2 W a x
-    if r != zzAddW2F W a x then some "model-editions-differ" else some (join [hl W r.1, toString r.2])
+    let (n, a) ← pw W a; let x ← nat x
+    some (join [hw W n ((a + x) % Bn W n), toString ((a + x) / Bn W n)])
   | "zzSubW2", [a, x] => do
-    let a ← wl W a; let x ← nat x
-    let r := zzSubW2 W a x
-    if r != zzSubW2F W a x then some "model-editions-differ" else some (join [hl W r.1, toString r.2])
+    let (n, a) ← pw W a; let x ← nat x
+    some (join [hw W n ((a + Bn W n * x - x) % Bn W n), if n = 0 then toString x else if a < x then "1" else "0"])
   | "zzIsSumEq", [c, a, b] => do
-    let c ← wl W c; let a ← wl W a; let b ← wl W b
-    some (join [b01 (zzIsSumEq_safe W c a b), b01 (zzIsSumEq_fast W c a b)])
+    let (_, c) ← pw W c; let (_, a) ← pw W a; let (_, b) ← pw W b
+    some (join [b01 (a + b == c), b01 (a + b == c)])
   | "zzIsSumWEq", [b, a, x] => do
-    let b ← wl W b; let a ← wl W a; let x ← nat x
-    some (join [b01 (zzIsSumWEq_safe W b a x), b01 (zzIsSumWEq_fast W b a x)])
-  | "zzNeg", [_, a] => do let a ← wl W a; some (hl W (zzNeg W a))
+    let (_, b) ← pw W b; let (_, a) ← pw W a; let x ← nat x
+    some (join [b01 (a + x == b), b01 (a + x == b)])
+  | "zzNeg", [_, a] => do let (n, a) ← pw W a; some (hw W n ((Bn W n - a) % Bn W n))
   -- ------------------------------------------------------ zz multiplicative
   | "zzMulW", [_, a, x] => do
     let (n, a) ← pw W a; let x ← nat x
@@ -333,26 +328,26 @@ def handleW (W : Nat) (f : String) (args : List String) : Option String :=
   | "zzJacobi", [a, b] => do let (_, a) ← pw W a; let (_, b) ← pw W b; some (toString (jacobi a b))
   -- ----------------------------------------------------------- zz modular
   | "zzAddMod", [_, a, b, m] => do
-    let a ← wl W a; let b ← wl W b; let m ← wl W m
-    some (join [hl W (zzAddMod_safe W a b m), hl W (zzAddMod_fast W a b m)])
+    let (n, a) ← pw W a; let (_, b) ← pw W b; let (_, m) ← pw W m
+    let r := hw W n ((a + b) % m); some (join [r, r])
   | "zzSubMod", [_, a, b, m] => do
-    let a ← wl W a; let b ← wl W b; let m ← wl W m
-    some (join [hl W (zzSubMod_safe W a b m), hl W (zzSubMod_fast W a b m)])
+    let (n, a) ← pw W a; let (_, b) ← pw W b; let (_, m) ← pw W m
+    let r := hw W n ((a + m - b) % m); some (join [r, r])
   | "zzAddWMod", [_, a, x, m] => do
-    let a ← wl W a; let x ← nat x; let m ← wl W m
-    some (join [hl W (zzAddWMod_safe W a x m), hl W (zzAddWMod_fast W a x m)])
+    let (n, a) ← pw W a; let x ← nat x; let (_, m) ← pw W m
+    let r := hw W n ((a + x) % m); some (join [r, r])
   | "zzSubWMod", [_, a, x, m] => do
-    let a ← wl W a; let x ← nat x; let m ← wl W m
-    some (join [hl W (zzSubWMod_safe W a x m), hl W (zzSubWMod_fast W a x m)])
+    let (n, a) ← pw W a; let x ← nat x; let (_, m) ← pw W m
+    let r := hw W n ((a + m - x) % m); some (join [r, r])
   | "zzNegMod", [_, a, m] => do
-    let a ← wl W a; let m ← wl W m
-    some (join [hl W (zzNegMod_safe W a m), hl W (zzNegMod_fast W a m)])
+    let (n, a) ← pw W a; let (_, m) ← pw W m
+    let r := hw W n ((m - a) % m); some (join [r, r])
   | "zzDoubleMod", [_, a, m] => do
-    let a ← wl W a; let m ← wl W m
-    some (join [hl W (zzDoubleMod_safe W a m), hl W (zzDoubleMod_fast W a m)])
+    let (n, a) ← pw W a; let (_, m) ← pw W m
+    let r := hw W n (2 * a % m); some (join [r, r])
   | "zzHalfMod", [_, a, m] => do
-    let a ← wl W a; let m ← wl W m
-    some (join [hl W (zzHalfMod_safe W a m), hl W (zzHalfMod_fast W a m)])
+    let (n, a) ← pw W a; let (_, m) ← pw W m
+    let r := hw W n (if a % 2 = 0 then a / 2 else (a + m) / 2); some (join [r, r])
   | "zzMulMod", [_, a, b, m] => do
     let (n, a) ← pw W a; let (_, b) ← pw W b; let (_, m) ← pw W m; some (hw W n (a * b % m))
   | "zzSqrMod", [_, a, m] => do let (n, a) ← pw W a; let (_, m) ← pw W m; some (hw W n (a * a % m))
@@ -466,14 +461,129 @@ def handleW (W : Nat) (f : String) (args : List String) : Option String :=
     some (join [toString n, toString no, gf2Op W m f no op rest])
   | _, _ => none
 
+/-- model of the word-level line for bits ∈ {16, 32, 64} (ModelWord) -/
+def uModel (bits x : Nat) : Option String :=
+  let x := x % 2 ^ bits
+  let f (l : List (Nat → Nat)) (ni : Nat → Nat) : String :=
+    join (l.map (fun g => toString (g x)) ++ [if x % 2 = 1 then toString (ni x) else "-"])
+  match bits with
+  | 16 => some (f [u16Rev, u16Bitrev, u16Weight, u16Parity, u16CTZ_safe, u16CTZ_fast, u16CLZ_safe, u16CLZ_fast, u16Shuffle, u16Deshuffle] u16NegInv)
+  | 32 => some (f [u32Rev, u32Bitrev, u32Weight, u32Parity, u32CTZ_safe, u32CTZ_fast, u32CLZ_safe, u32CLZ_fast, u32Shuffle, u32Deshuffle] u32NegInv)
+  | 64 => some (f [u64Rev, u64Bitrev, u64Weight, u64Parity, u64CTZ_safe, u64CTZ_fast, u64CLZ_safe, u64CLZ_fast, u64Shuffle, u64Deshuffle] u64NegInv)
+  | _ => none
+
+/-- the word-size dependent `wordNegInv` as the model computes it -/
+def negInvModel (W x : Nat) : Nat :=
+  match W with | 16 => u16NegInv x | 32 => u32NegInv x | _ => u64NegInv x
+
+/-- handlers computed by the CODE-SHAPED MODELS (the definitions the theorems are about) -/
+def modelW (W : Nat) (f : String) (args : List String) : Option String :=
+  let nat (s : String) : Option Nat := parseNat s
+  let pr (r : List Nat × Nat) : String := join [hl W r.1, toString r.2]
+  let ed (r rF : List Nat × Nat) : String := if r != rF then "model-editions-differ" else pr r
+  match f, args with
+  | "word", [x] => do let x ← nat x; uModel W x
+  -- ModelAdd
+  | "wwEq", [a, b] => do let a ← wl W a; let b ← wl W b; some (join [b01 (wwEq_safe a b), b01 (wwEq_fast a b)])
+  | "wwCmp", [a, b] => do let a ← wl W a; let b ← wl W b; some (join [toString (wwCmp_safe a b), toString (wwCmp_fast a b)])
+  | "wwCmp2", [a, b] => do let a ← wl W a; let b ← wl W b; some (join [toString (wwCmp2_safe a b), toString (wwCmp2_fast a b)])
+  | "wwIsZero", [a] => do let a ← wl W a; some (join [b01 (wwIsZero_safe a), b01 (wwIsZero_fast a)])
+  | "zzIsEven", [a] => do let a ← wl W a; some (join [b01 (zzIsEven a), b01 (zzIsOdd a)])
+  | "zzAdd", [_, a, b] => do let a ← wl W a; let b ← wl W b; some (ed (zzAdd W a b) (zzAddF W a b))
+  | "zzSub", [_, a, b] => do let a ← wl W a; let b ← wl W b; some (ed (zzSub W a b) (zzSubF W a b))
+  | "zzAdd2", [_, b, a] => do let a ← wl W a; let b ← wl W b; some (ed (zzAdd2 W b a) (zzAdd2F W b a))
+  | "zzSub2", [_, b, a] => do let a ← wl W a; let b ← wl W b; some (ed (zzSub2 W b a) (zzSub2F W b a))
+  | "zzAddW", [_, a, x] => do let a ← wl W a; let x ← nat x; some (pr (zzAddW W a x))
+  | "zzSubW", [_, a, x] => do let a ← wl W a; let x ← nat x; some (pr (zzSubW W a x))
+  | "zzAddW2", [a, x] => do let a ← wl W a; let x ← nat x; some (ed (zzAddW2 W a x) (zzAddW2F W a x))
+  | "zzSubW2", [a, x] => do let a ← wl W a; let x ← nat x; some (ed (zzSubW2 W a x) (zzSubW2F W a x))
+  | "zzIsSumEq", [c, a, b] => do
+    let c ← wl W c; let a ← wl W a; let b ← wl W b
+    some (join [b01 (zzIsSumEq_safe W c a b), b01 (zzIsSumEq_fast W c a b)])
+  | "zzIsSumWEq", [b, a, x] => do
+    let b ← wl W b; let a ← wl W a; let x ← nat x
+    some (join [b01 (zzIsSumWEq_safe W b a x), b01 (zzIsSumWEq_fast W b a x)])
+  | "zzNeg", [_, a] => do let a ← wl W a; some (hl W (zzNeg W a))
+  | "zzAddMod", [_, a, b, m] => do
+    let a ← wl W a; let b ← wl W b; let m ← wl W m
+    some (join [hl W (zzAddMod_safe W a b m), hl W (zzAddMod_fast W a b m)])
+  | "zzSubMod", [_, a, b, m] => do
+    let a ← wl W a; let b ← wl W b; let m ← wl W m
+    some (join [hl W (zzSubMod_safe W a b m), hl W (zzSubMod_fast W a b m)])
+  | "zzAddWMod", [_, a, x, m] => do
+    let a ← wl W a; let x ← nat x; let m ← wl W m
+    some (join [hl W (zzAddWMod_safe W a x m), hl W (zzAddWMod_fast W a x m)])
+  | "zzSubWMod", [_, a, x, m] => do
+    let a ← wl W a; let x ← nat x; let m ← wl W m
+    some (join [hl W (zzSubWMod_safe W a x m), hl W (zzSubWMod_fast W a x m)])
+  | "zzNegMod", [_, a, m] => do
+    let a ← wl W a; let m ← wl W m
+    some (join [hl W (zzNegMod_safe W a m), hl W (zzNegMod_fast W a m)])
+  | "zzDoubleMod", [_, a, m] => do
+    let a ← wl W a; let m ← wl W m
+    some (join [hl W (zzDoubleMod_safe W a m), hl W (zzDoubleMod_fast W a m)])
+  | "zzHalfMod", [_, a, m] => do
+    let a ← wl W a; let m ← wl W m
+    some (join [hl W (zzHalfMod_safe W a m), hl W (zzHalfMod_fast W a m)])
+  -- ModelMul
+  | "zzMulW", [_, a, x] => do let a ← wl W a; let x ← nat x; some (pr (zzMulW W a x))
+  | "zzAddMulW", [_, b, a, x] => do let b ← wl W b; let a ← wl W a; let x ← nat x; some (pr (zzAddMulW W b a x))
+  | "zzSubMulW", [_, b, a, x] => do let b ← wl W b; let a ← wl W a; let x ← nat x; some (pr (zzSubMulW W b a x))
+  | "zzMul", [_, a, b] => do let a ← wl W a; let b ← wl W b; some (hl W (zzMul W a b))
+  | "zzSqr", [a] => do let a ← wl W a; some (hl W (zzSqr W a))
+  | "zzDivW", [_, a, x] => do let a ← wl W a; let x ← nat x; some (pr (zzDivW W a x))
+  | "zzModW", [a, x] => do let a ← wl W a; let x ← nat x; some (toString (zzModW W a x))
+  | "zzModW2", [a, x] => do
+    let a ← wl W a; let x ← nat x
+    let r := zzModW2 W a x
+    if r != zzModW2F W a x then some "model-editions-differ" else some (toString r)
+  | "zzRedMont", [a, m] => do
+    let a ← wl W a; let m ← wl W m
+    let mp := negInvModel W (m.headD 1)
+    some (join [hl W (zzRedMont_safe W a m mp), hl W (zzRedMont_fast W a m mp)])
+  | "zzRedCrand", [a, m] => do
+    let a ← wl W a; let m ← wl W m
+    some (join [hl W (zzRedCrand_safe W a m), hl W (zzRedCrand_fast W a m)])
+  -- ModelBits
+  | "wwIsW", [a, x] => do let a ← wl W a; let x ← nat x; some (join [b01 (wwIsW_safe a x), b01 (wwIsW_fast a x)])
+  | "wwIsRepW", [a, x] => do let a ← wl W a; let x ← nat x; some (join [b01 (wwIsRepW_safe a x), b01 (wwIsRepW_fast a x)])
+  | "wwSizes", [a] => do
+    let a ← wl W a
+    if wwLoZeroBits W a != wwLoZeroBitsF W a || wwHiZeroBits W a != wwHiZeroBitsF W a || wwBitSize W a != wwBitSizeF W a
+    then some "model-editions-differ" else
+    some (join [toString (wwWordSize a), toString (wwOctetSize W a), toString (wwBitSize W a),
+      toString (wwLoZeroBits W a), toString (wwHiZeroBits W a)])
+  | "wwTestBit", [a, pos] => do let a ← wl W a; let pos ← nat pos; some (b01 (wwTestBit W a pos))
+  | "wwGetBits", [a, pos, width] => do
+    let a ← wl W a; let pos ← nat pos; let width ← nat width; some (toString (wwGetBits W a pos width))
+  | "wwSetBit", [a, pos, v] => do let a ← wl W a; let pos ← nat pos; let v ← nat v; some (hl W (wwSetBit W a pos (v != 0)))
+  | "wwSetBits", [a, pos, width, v] => do
+    let a ← wl W a; let pos ← nat pos; let width ← nat width; let v ← nat v; some (hl W (wwSetBits W a pos width v))
+  | "wwFlipBit", [a, pos] => do let a ← wl W a; let pos ← nat pos; some (hl W (wwFlipBit W a pos))
+  | "wwShLo", [a, s] => do let a ← wl W a; let s ← nat s; some (hl W (wwShLo W a s))
+  | "wwShHi", [a, s] => do let a ← wl W a; let s ← nat s; some (hl W (wwShHi W a s))
+  | "wwShLoCarry", [a, s, c] => do let a ← wl W a; let s ← nat s; let c ← nat c; some (pr (wwShLoCarry W a s c))
+  | "wwShHiCarry", [a, s, c] => do let a ← wl W a; let s ← nat s; let c ← nat c; some (pr (wwShHiCarry W a s c))
+  | "wwTrimLo", [a, pos] => do let a ← wl W a; let pos ← nat pos; some (hl W (wwTrimLo W a pos))
+  | "wwTrimHi", [a, pos] => do let a ← wl W a; let pos ← nat pos; some (hl W (wwTrimHi W a pos))
+  | _, _ => none
+
+/-- model and specification must say the same; the model's answer is what is compared with the C -/
+def both (m s : Option String) : String :=
+  match m, s with
+  | some m, some s => if m == s then m else s!"MODEL!=SPEC model: {m} spec: {s}"
+  | some m, none => m
+  | none, some s => s
+  | none, none => "bad-op"
+
 def handle : List String → String
   | ["u", bits, x] =>
     match parseNat bits, parseNat x with
-    | some b, some x => uLine b x
+    | some b, some x => both (uModel b x) (some (uLine b x))
     | _, _ => "bad-op"
   | f :: w :: args =>
     match parseNat w with
-    | some W => if W = 16 ∨ W = 32 ∨ W = 64 then (handleW W f args).getD "bad-op" else "bad-op"
+    | some W => if W = 16 ∨ W = 32 ∨ W = 64 then both (modelW W f args) (handleW W f args) else "bad-op"
     | none => "bad-op"
   | _ => "bad-op"
 
